@@ -8,36 +8,6 @@ open JanetModel.Gen.Parse JanetModel.PP
 
 /-! ### hypotheses on the value -/
 
-/-- keys of a dictionary literal, in order: each one differs (`janet_equals`) from all earlier ones -/
-def freshAll : List Value → List Value → Bool
-  | _, [] => true
-  | acc, k :: ks => acc.all (fun o => !keq k o) && freshAll (acc ++ [k]) ks
-
-/-- a well-formed struct / table content: as many values as keys, no nil key or value (neither can be stored), distinct keys -/
-def keysOK (ks vs : List Value) : Bool :=
-  ks.length == vs.length && ks.all (fun k => !k.isNil) && vs.all (fun v => !v.isNil) && freshAll [] ks
-
-mutual
-/-- every struct / table inside the value is well formed -/
-def Value.dictOK : Value → Bool
-  | .tuple _ _ _ l => dictOKL l
-  | .array l => dictOKL l
-  | .struct k v => keysOK k v && dictOKL k && dictOKL v
-  | .table k v => keysOK k v && dictOKL k && dictOKL v
-  | _ => true
-def dictOKL : List Value → Bool
-  | [] => true
-  | a :: l => a.dictOK && dictOKL l
-end
-
-theorem dictOKL_mem : ∀ {l : List Value}, dictOKL l = true → ∀ v ∈ l, v.dictOK = true
-  | [], _, _, h => by cases h
-  | a :: l, h, v, hv => by
-    simp only [dictOKL, Bool.and_eq_true] at h
-    rcases List.mem_cons.mp hv with rfl | hv
-    · exact h.1
-    · exact dictOKL_mem h.2 v hv
-
 /-- a number text: starts like a number, consists of symbol characters (so the tokenizer takes it whole) -/
 def numTok : List B → Bool
   | [] => false
